@@ -275,7 +275,7 @@ func verifLemmaMaxBodyTight(c *channelInstance, m *Message, chunkSize int, chunk
 //@   let tid = instance.securityTokenID
 //@   let rel0 = released(&s.instancesMu)
 //@   assigns map(s.instances), held(&s.instancesMu), released(&s.instancesMu)
-//@   ensures [C17:expired-removed] released(&s.instancesMu) != rel0 ==>
+//@   ensures [C17,C10:expired-removed] released(&s.instancesMu) != rel0 ==>
 //@           forall i int :: { at(s.instances[cid], i) } off(s.instances[cid]) <= i && i < off(s.instances[cid]) + len(s.instances[cid]) ==>
 //@               at(s.instances[cid], i).securityTokenID != tid
 //@   ensures [C17:other-channels-kept] forall k uint32 :: { s.instances[k] } k != cid ==>
@@ -285,7 +285,7 @@ func verifLemmaMaxBodyTight(c *channelInstance, m *Message, chunkSize int, chunk
 //@   canary ensures [C17:canary-always-expires] released(&s.instancesMu) != rel0
 //@   loop 0 invariant -1 <= rangeindex && rangeindex < len(oldInstances) && s != nil && s.instances != nil && instance != nil && s.c != nil
 //@   loop 0 invariant forall i int :: { at(oldInstances, i) } off(oldInstances) <= i && i < off(oldInstances) + len(oldInstances) ==> at(oldInstances, i) != nil
-//@   loop 0 invariant [C17:expired-removed] forall i int :: { at(s.instances[cid], i) } off(s.instances[cid]) <= i && i < off(s.instances[cid]) + len(s.instances[cid]) ==>
+//@   loop 0 invariant [C17,C10:expired-removed] forall i int :: { at(s.instances[cid], i) } off(s.instances[cid]) <= i && i < off(s.instances[cid]) + len(s.instances[cid]) ==>
 //@           at(s.instances[cid], i) != nil && at(s.instances[cid], i).securityTokenID != tid
 //@   loop 0 invariant [C17:other-channels-kept] forall k uint32 :: { s.instances[k] } k != cid ==>
 //@           in(k, s.instances) == old(in(k, s.instances)) && sameslice(s.instances[k], old(s.instances[k]))
